@@ -137,7 +137,13 @@ def gen_case(rng, idx):
     if retfut: ret_ty = 'std::pin::Pin<Box<dyn std::future::Future<Output = %s>>>' % ret_ty
     if boxed:
         kw = 'fn'
-        body_src = 'fx("pre");\n        Box::pin(async move {\n        ' + body_src + '\n        })'
+        if rng.random() < 0.35 and shape != 'impl' and all((p.decl or '').startswith(p.name + ':') or (p.decl or '').startswith('mut ' + p.name + ':') for p in ps):
+            # the OLD async-trait shape: an inner `async fn` declared in the body, invoked at once and boxed — the attribute
+            # instruments the inner function, under the OUTER function's name
+            body_src = 'fx("pre");\n        async fn __f_inner(%s) -> %s {\n        %s\n        }\n        Box::pin(__f_inner(%s))' % (
+                decls, ret_ty, body_src, ', '.join(p.name for p in ps))
+        else:
+            body_src = 'fx("pre");\n        Box::pin(async move {\n        ' + body_src + '\n        })'
         ret_ty = 'std::pin::Pin<Box<dyn std::future::Future<Output = %s>>>' % ret_ty
     src = '''mod case_%d {
     #![allow(unused_variables, unused_mut, unreachable_code, clippy::all)]
